@@ -148,8 +148,8 @@ func runC09(c *Ctx) {
 			// drop guards about emptiness / errors of the expansion itself (they return before any series exists)
 			var kept []guardCond
 			for _, g := range gs {
-				if allNilTests(info, g.Cond) {
-					continue
+				if hasNilTestDisjunct(info, g.Cond) {
+					continue // `err != nil`, `ps == nil || len(ps.postings) == 0`: nothing was expanded
 				}
 				kept = append(kept, g)
 			}
